@@ -10,8 +10,8 @@
    ...; quiet a l = no enter/exit/reenter in l and every view shows a active. *)
 From Coq Require Import List Arith Bool NArith.
 From FFSM2 Require Import Model.TaskList Model.BitArray Model.BitStream Model.Plan Model.Ancestors Model.Machine
-  Proofs.BitArrayProofs Proofs.MachineFrame Proofs.MachinePlan Proofs.MachineLife Proofs.GuardProofs Proofs.CycleProofs Proofs.PlanStep
-  Proofs.SerialProofs Proofs.LogProofs Proofs.MachineTop Model.Multi Generated.InitFacts Proofs.ConstructProofs Proofs.LifeMonitor Proofs.ActivationRounds Proofs.IndexSafety Proofs.FeatureProofs.
+  Proofs.BitArrayProofs Proofs.TaskListProofs Proofs.TaskListRun Proofs.PlanProofs Proofs.MachineFrame Proofs.MachinePlan Proofs.MachineLife Proofs.GuardProofs Proofs.CycleProofs Proofs.PlanStep
+  Proofs.SerialProofs Proofs.LogProofs Proofs.MachineTop Model.Multi Generated.InitFacts Proofs.ConstructProofs Proofs.LifeMonitor Proofs.ActivationRounds Proofs.IndexSafety Proofs.FeatureProofs Model.Script Proofs.Contract Proofs.Histories.
 Import ListNotations.
 
 (* previousTransition() after a processing step is the surviving transition (origin, destination and payload), empty if
@@ -129,4 +129,92 @@ Theorem C11_replay_enter :
          (exists l : list (event P), tr P s' = l ++ tr P s /\ change P cfg INVALID d l).
 Proof. exact (replay_enter_spec). Qed.
 Print Assumptions C11_replay_enter.
+
+(* over whole histories: the authority runs any in-contract history of
+   enter/exit/update/react/changeTo/changeWith/immediateChange*/succeed/fail/plan edits/query under callbacks orc; the
+   replica (arbitrary callbacks orc') is driven only by replayEnter(previous.destination or 0) after enter(),
+   replayTransition(previous.destination) after each processing call whose previousTransition() is set, exit() after
+   exit(). After every call the replica's active state equals the authority's, and everything appended to the replica's
+   trace is enter/exit/reenter - no guard is consulted on it *)
+Theorem C11_replica_follows_every_history :
+  forall (P : Type) (cfg : config) (orc orc' : oracle P),
+         wf_cfg cfg ->
+         wf_oracle P cfg orc ->
+         wf_oracle P cfg orc' ->
+         c_history cfg = true ->
+         forall (lg lg' : bool) (ops : list (api_op P)),
+         active P (co P (construct P cfg orc' lg')) = active P (co P (construct P cfg orc lg)) ->
+         ops_ok P cfg orc (construct P cfg orc lg) ops ->
+         Forall (auth_op P) ops ->
+         let
+         '(s', r') := follow P cfg orc orc' (construct P cfg orc lg) (construct P cfg orc' lg') ops in
+          s' = run P cfg orc lg ops /\
+          active P (co P r') = active P (co P s') /\
+          (exists l : list (event P), tr P r' = l ++ tr P (construct P cfg orc' lg') /\ lifecycle_only P l).
+Proof. exact (replica_follows_every_history). Qed.
+Print Assumptions C11_replica_follows_every_history.
+
+Theorem C11_replica_follows_from_any_agreeing_pair :
+  forall (P : Type) (cfg : config) (orc orc' : oracle P),
+         wf_cfg cfg ->
+         wf_oracle P cfg orc ->
+         wf_oracle P cfg orc' ->
+         c_history cfg = true ->
+         forall (ops : list (api_op P)) (s r : mstate P),
+         Inv P cfg s ->
+         SInv P cfg (PIc P cfg) r ->
+         active P (co P r) = active P (co P s) ->
+         ops_ok P cfg orc s ops ->
+         Forall (auth_op P) ops ->
+         let
+         '(s', r') := follow P cfg orc orc' s r ops in
+          s' = run_from P cfg orc s ops /\
+          Inv P cfg s' /\
+          SInv P cfg (PIc P cfg) r' /\
+          active P (co P r') = active P (co P s') /\
+          (exists l : list (event P), tr P r' = l ++ tr P r /\ lifecycle_only P l).
+Proof. exact (replica_follows_from). Qed.
+Print Assumptions C11_replica_follows_from_any_agreeing_pair.
+
+(* manual activation: both instances are constructed inactive, so the premise 'constructed in the same state' holds
+   whatever the callbacks do *)
+Theorem C11_replica_follows_manual :
+  forall (P : Type) (cfg : config) (orc orc' : oracle P),
+         wf_cfg cfg ->
+         wf_oracle P cfg orc ->
+         wf_oracle P cfg orc' ->
+         c_history cfg = true ->
+         forall (lg lg' : bool) (ops : list (api_op P)),
+         c_manual cfg = true ->
+         ops_ok P cfg orc (construct P cfg orc lg) ops ->
+         Forall (auth_op P) ops ->
+         let
+         '(s', r') := follow P cfg orc orc' (construct P cfg orc lg) (construct P cfg orc' lg') ops in
+          s' = run P cfg orc lg ops /\
+          active P (co P r') = active P (co P s') /\
+          (exists l : list (event P), tr P r' = l ++ tr P (construct P cfg orc' lg') /\ lifecycle_only P l).
+Proof. exact (replica_follows_manual). Qed.
+Print Assumptions C11_replica_follows_manual.
+
+(* one call of the authority and its mirror on the replica *)
+Theorem C11_one_call_mirrored :
+  forall (P : Type) (cfg : config) (orc orc' : oracle P),
+         wf_cfg cfg ->
+         wf_oracle P cfg orc ->
+         wf_oracle P cfg orc' ->
+         c_history cfg = true ->
+         forall (s r : mstate P) (op : api_op P),
+         Inv P cfg s ->
+         SInv P cfg (PIc P cfg) r ->
+         active P (co P r) = active P (co P s) ->
+         in_contract P cfg s op ->
+         auth_op P op ->
+         let s' := fst (step P cfg orc s op) in
+         let r' := mirror P cfg orc' op s' r in
+         Inv P cfg s' /\
+         SInv P cfg (PIc P cfg) r' /\
+         active P (co P r') = active P (co P s') /\
+         (exists l : list (event P), tr P r' = l ++ tr P r /\ lifecycle_only P l).
+Proof. exact (follow_step). Qed.
+Print Assumptions C11_one_call_mirrored.
 
